@@ -135,15 +135,24 @@ func C14_atomic() {
 	fail := c14FailParts[sym.Choice("failure", len(c14FailParts))]
 	failFirst := sym.Choice("failing part first", 2) == 1
 	doc := ""
-	// quick: no valid part, one of them, or all; thorough: every subset (S booleans)
+	// quick: no valid part, one of them, or all; thorough: subsets (S booleans)
 	which := -2
+	tail := false
 	if !sym.Thorough() {
 		which = sym.Choice("valid parts", len(c14ValidParts)+2) - 2 // -2: none, -1: all, k: only part k
 	}
 	for k, p := range c14ValidParts {
 		include := which == -1 || which == k
 		if sym.Thorough() {
-			include = sym.Bool("part " + string(rune('0'+k)))
+			// every subset of the first seven parts; the last four go together
+			if k < 7 {
+				include = sym.Bool("part " + string(rune('0'+k)))
+			} else {
+				if k == 7 {
+					tail = sym.Bool("parts 7-10")
+				}
+				include = tail
+			}
 		}
 		if include {
 			doc += p + "\n"
